@@ -612,6 +612,10 @@ func (r *RigR) actions(drain bool) []Action {
 			if st == nil || !st.done {
 				continue
 			}
+		case "start2":
+			if st == nil || !st.issued {
+				continue
+			}
 		}
 		acts = append(acts, Action{Key: fmt.Sprintf("op:%02d:%s:%d:%d", i, o.op.Kind, o.op.Coll, o.op.Part), Weight: 4, Run: func() { r.issue(o) }})
 	}
@@ -667,7 +671,10 @@ func (r *RigR) issue(o *rOpState) {
 	db := &model.DatabaseInfo{ID: c.DBID, Name: c.DB}
 	info := r.pbInfo(c)
 	switch o.op.Kind {
-	case "start":
+	case "start", "start2":
+		if o.op.Kind == "start2" {
+			s.Probe("collection_announced_twice")
+		}
 		var seek []*msgpb.MsgPosition
 		if !c.SeekNil {
 			for _, v := range c.SrcV {
